@@ -115,8 +115,9 @@ FieldsOfRRs(msg, cur, n, acc, idx) ==
                     ELSE IF ty = 33 /\ cl = 1 THEN <<F(rd + 6, FALSE)>>
                     ELSE IF ty = 1 /\ cl = 3 THEN <<F(rd, FALSE)>>
                     ELSE <<>>
-               \* TSIG: neither the owner nor the algorithm name may be compressed
-           own == IF ty = 250 THEN F(cur, FALSE) ELSE F(cur, TRUE)
+               \* every owner name may be compressed (the TSIG record's too: it is written through add_rr like any
+               \* other record); names inside TSIG RDATA (the algorithm name) never
+           own == F(cur, TRUE)
            inner2 == IF ty = 250 THEN <<F(rd, FALSE)>> ELSE inner
        IN FieldsOfRRs(msg, rd + rdl, n - 1, acc \o <<own>> \o inner2, idx + 1)
 RECURSIVE FieldsOfQs(_, _, _, _, _)
